@@ -100,6 +100,12 @@ You can provide input either as a file (as the first argument) or by piping logs
 				os.Exit(1)
 			}
 
+			// Validation: Atlas mode needs a project and a cluster (dates or keys alone do not select a cluster)
+			if atlasParamsSet && len(args) == 0 && !stdinHasData && (atlasProjectId == "" || atlasClusterName == "") {
+				fmt.Fprintln(os.Stderr, "Error: Atlas mode requires both --atlasProjectId and --atlasClusterName.")
+				os.Exit(1)
+			}
+
 			// Validation: Atlas params and positional input are mutually exclusive
 			if atlasParamsSet && len(args) == 1 {
 				fmt.Fprintln(os.Stderr, "Error: Cannot provide both Atlas parameters and an input file. Please use only one input source.")
